@@ -95,6 +95,15 @@ theorem same_commits_same_document (cx : Ctx) (hwf : wfCheck3 cx.blocks = true)
   exact same_commits_same_values cx.blocks swf _ _
     (deliveries_docInv cx swf hknown d cs₁ {} h₁ e) (deliveries_docInv cx swf hknown d cs₂ {} h₂ e) same
 
+/-- a local write — a new commit on top of the current heads — is the delivery of that commit (`drv crdt` replays local
+    writes with `processBlock`): the histories of `same_commits_same_document` cover local writes too -/
+theorem local_write_is_a_delivery (cx : Ctx) (r : Replica) (c : Block) (hc : cx.blocks.get? c.id = some c)
+    (hn : isMerged cx.blocks (r.doc c.doc).heads c.id c.height = false)
+    (hp : ∀ p ∈ c.parents, ∀ pb, cx.blocks.get? p = some pb →
+      isMerged cx.blocks (r.doc c.doc).heads p pb.height = true) :
+    mergeDoc cx r c = processBlock cx 4 r c :=
+  mergeDoc_of_parents_merged cx r c hc hn hp
+
 /-- after every history of deliveries the values are accounted for: the deltas of the merged blocks, each once -/
 theorem values_are_the_merged_deltas_once (cx : Ctx) (hwf : wfCheck3 cx.blocks = true)
     (hknown : ∀ l, (cx.blocks.get? l).isSome = true → cx.known l = true) (d : String) (cs : List Block)
